@@ -18,6 +18,7 @@ class C01(Prop):
             "non-trivial = history contains an add or flip on a margined contract under a positive spread, a spot "
             "spec with multiplier != 1 that is traded, >= 2 margined contracts traded, fees > 0 with a trade, or an "
             "off-market execution; distinct = distinct canonical histories")
+    rule = rule + bs.HISTORY_RULE
     nontrivial_tags = {"add-margined-spread", "flip", "spot-mult", "two-margined", "fees", "off-market"}
     assumptions = [
         "cash book quoted 1.0:1.0 and reference-rate book seeded, as TradingEnv.reset does",
@@ -83,8 +84,21 @@ def _tag_trade(r, s, o, k, q, margined_traded):
         r.tags.add("fees")
 
 
+def snap_fired(s) -> bool:
+    """did the broker's epsilon snap fire (a position of less than 1e-7 contracts left by a trade is set to 0)?"""
+    for o in s.obs:
+        for k, q in o["lpos"].items():
+            if Fraction(1, 10**11) < abs(q) < Fraction(1, 10**7) and o["pos"].get(k, Fraction(0)) == 0:  # not mere rounding dust
+                return True
+    return False
+
+
 def judge_c01(r, s):
     tags_for(r, s)
+    if snap_fired(s):
+        # outside the theorems' hypothesis (`snapped = false`): K1, the documented trade-off of Broker.transact
+        r.skipped = "epsilon snap fired (K1)"
+        return
     for i, o in enumerate(s.obs):
         tol = o["tol"] * 10
         # positions are the sum of executed quantities (unless the epsilon snap applies)
